@@ -153,14 +153,21 @@ Definition parse_mail_from (args : str) : option str :=
     | [] => Some a
     end.
 
-(** parseRcptTo; [None] = error "expected TO" *)
+(** parseRcptTo; [None] = error "expected TO".  After the fixes 6a5ca7c (the
+    keyword is compared with EqualFold on three bytes and those three bytes
+    are removed, whatever their case) and c45b394 (an argument that starts
+    with "<" ends at the first ">": ESMTP parameters are not part of the
+    address). *)
 Definition parse_rcpt_to (args : str) : option str :=
   let a := trim_space args in
-  if negb (has_prefix (to_upper a) (S_ "TO:")) then None
+  (* if len(args) < 3 || !strings.EqualFold(args[:3], "TO:") *)
+  if negb (equal_fold (firstn 3 a) (S_ "TO:")) then None
   else
-    let a := trim_prefix a (S_ "TO:") in
-    let a := trim_prefix a (S_ "to:") in
-    let a := trim_space a in
+    let a := trim_space (skipn 3 a) in
+    (* if HasPrefix(args, "<") { if end := Index(args, ">"); end >= 0 { args = args[:end+1] } } *)
+    let a := if has_prefix a (S_ "<")
+             then match index_byte a ">"%char with Some e => firstn (S e) a | None => a end
+             else a in
     let a := trim_prefix a (S_ "<") in
     let a := trim_suffix a (S_ ">") in
     Some a.
